@@ -13,6 +13,7 @@ Import ListNotations.
 Local Open Scope Z_scope.
 
 Definition two32 : Z := 4294967296.
+Definition two63 : Z := 9223372036854775808.
 
 Inductive eerr :=
 | EInvalidTLV        (* Invalid TL or V value *)
@@ -33,10 +34,14 @@ Definition reparse_tag (tag : Z) : option Z :=
   if two32 <=? tag / 4 then None
   else Some (((tag / 4) * 4) mod two32 + tag mod 4).
 
-(* the TL octets of an opening line; kind: 0 = P, 1 = C, 2 = I *)
+(* the TL octets of an opening line; kind: 0 = P, 1 = C, 2 = I.
+   TL and V are read with strtoul into the signed ber_tlv_len_t: a decimal
+   >= 2^63 becomes negative (or sets errno at >= 2^64) and fails the test
+   "errno || (opt_tl_len && opt_tl_len < 2) || tlv_len < 0"; a missing TL
+   attribute is tl = 0. *)
 Definition enber_tl (kind : Z) (tag tl vlen : Z) : list Z * option eerr :=
   let tlv_len := if kind =? 2 then 0 else vlen in
-  if (negb (tl =? 0) && (tl <? 2)) || (tlv_len <? 0) then ([], Some EInvalidTLV)
+  if (negb (tl =? 0) && (tl <? 2)) || (two63 <=? tl) || (tlv_len <? 0) || (two63 <=? tlv_len) then ([], Some EInvalidTLV)
   else match reparse_tag tag with
        | None => ([], Some EInvalidTag)
        | Some tlv_tag =>
